@@ -31,7 +31,7 @@ def run(tier, seed):
     by_id = {s["id"]: s for s in stimuli}
     findings = [f for f in common.load_findings(PROP) if f.get("status") == "open"]
     hit = {}
-    f01 = [f for f in common.load_findings("C01") if f.get("status") == "open"]
+    f01 = [f for p in ("C01", "C07") for f in common.load_findings(p) if f.get("status") == "open"]
     res = c01.judge(events, lambda t: by_id[t // 100], f01, hit)
     traces = {e["t"] for e in events if e.get("ev") == "start"}
     for b in res["bad"]:
